@@ -243,7 +243,7 @@ func ruleC17(w *World, r *Report) {
 		return g == complexF || g == trivial
 	}, successReturns(cart), "refuses the pair")
 	r.floor("R17.2 conversion calls in the Cartesian product", nE, 3)
-	ruleC17Consumers(w, r, cart)
+	portRuleConsumers(w, r, "R17.5", cart)
 
 	// ---- asComplexTernaryMatches: fast paths, strategy guard and loop shape
 	ruleC17Complex(w, r, complexF, isW, isE, isR, width, exactUn)
@@ -961,8 +961,8 @@ func rulesFromCartesian(w *World, v ssa.Value, cart *ssa.Function, depth int) (b
 
 // ruleC17Consumers: the BESS PDR writers install exactly the rules the expansion returns and nothing
 // when it refuses.
-func ruleC17Consumers(w *World, r *Report, cart *ssa.Function) {
-	const P = "C17"
+func portRuleConsumers(w *World, r *Report, rule string, cart *ssa.Function) {
+	P := r.Prop
 	n := 0
 	for _, name := range []string{"pfcpiface.(*bess).addPDR$1", "pfcpiface.(*bess).delPDR$1"} {
 		f := w.Fn(P, name)
@@ -988,14 +988,14 @@ func ruleC17Consumers(w *World, r *Report, cart *ssa.Function) {
 			}
 		}
 		if ranged == nil {
-			r.bad("R17.5", name, "one datapath entry per expanded rule", w.Pos(f.Pos()), "no loop over the expanded rules feeds processPDR")
+			r.bad(rule, name, "one datapath entry per expanded rule", w.Pos(f.Pos()), "no loop over the expanded rules feeds processPDR")
 			continue
 		}
 		n++
 		okP, why := rulesFromCartesian(w, ranged, cart, 0)
-		r.check(okP, "R17.5", name, "the installed port rules are the expansion of the PDR's two port ranges", w.Pos(f.Pos()), "CreatePortRangeCartesianProduct(p.appFilter.srcPortRange, p.appFilter.dstPortRange)", "the port rules installed are not (only) the expansion of the PDR's ranges: "+why)
+		r.check(okP, rule, name, "the installed port rules are the expansion of the PDR's two port ranges", w.Pos(f.Pos()), "CreatePortRangeCartesianProduct(p.appFilter.srcPortRange, p.appFilter.dstPortRange)", "the port rules installed are not (only) the expansion of the PDR's ranges: "+why)
 		// no datapath write after a refusal
-		errorsPropagate(w, r, "R17.5", f, func(c *ssa.Call) bool {
+		errorsPropagate(w, r, rule, f, func(c *ssa.Call) bool {
 			ex, ok := ranged.(*ssa.Extract)
 			return ok && ex.Tuple == ssa.Value(c)
 		}, func(i ssa.Instruction) bool { return isCallTo(i, proc) }, "installs nothing")
